@@ -143,6 +143,18 @@ class EncodeState:
                     EncodeError)
                 internal_value = int(internal_value)
 
+            if bit_length > 0:
+                # make sure that the value is representable using
+                # the specified number of bits (including the sign)
+                max_value = (1 << (bit_length - 1)) - 1
+                min_value = -max_value - 1
+                if base_type_encoding in (Encoding.ONEC, Encoding.SM):
+                    min_value = -max_value
+                if not min_value <= internal_value <= max_value:
+                    odxraise(
+                        f"The value '{internal_value!r}' cannot be encoded using "
+                        f"{bit_length} bits.", EncodeError)
+
             if base_type_encoding == Encoding.ONEC:
                 # one-complement
                 if internal_value >= 0:
